@@ -3,14 +3,30 @@ import os
 import sys
 import z3
 sys.path.insert(0, os.path.dirname(os.path.dirname(os.path.abspath(__file__))))
-from props.common import main, Run, ALL_SIDECARS  # noqa: E402
-from props import faces  # noqa: E402
+from props.common import main, Run, run_child, ALL_SIDECARS  # noqa: E402
+from props import faces, cli_faces  # noqa: E402
+from props.c18 import cli_contract  # noqa: E402
 from pyvc.state import State  # noqa: E402
 from pyvc.sorts import V, vbool, vint  # noqa: E402
 
-SIDE = ALL_SIDECARS
+SIDE = ALL_SIDECARS + ("cli",)
 OPS = {"__lt__": lambda a, b: a < b, "__gt__": lambda a, b: a > b, "__eq__": lambda a, b: a == b,
        "__ge__": lambda a, b: a >= b, "__le__": lambda a, b: a <= b}
+
+
+def make_cli_replayer(run):
+    cache = {}
+
+    def replay(o):
+        if "cli.main" not in o.name:
+            return None
+        if "d" not in cache:
+            cache["d"] = run_child(run.repo.root, "cli_diff.py", [str(run.seed)])
+        fl = [f for f in cache["d"].get("failures", []) if f.get("face") == "check"]
+        if fl:
+            return {"reproduced": True, "failing_case": fl[0], "how": "stacks of pickles through `fickling --check-safety` (replay/cli_diff.py)"}
+        return {"reproduced": False, "searched": {k: v for k, v in cache["d"].items() if k != "failures"}}
+    return replay
 
 
 def build(run: Run):
@@ -26,6 +42,27 @@ def build(run: Run):
     # (3) faces
     run.verify("analysis.is_likely_safe", extra_post=faces.is_likely_safe_path)
     run.verify("loader.load", extra_post=faces.loader_load_path)
+    # the command line: every stacked pickle is analysed exactly once (into the report file), was_safe is the conjunction of
+    # "this pickle's severity is LIKELY_SAFE", the loop is never left early, and the exit status is 0 iff was_safe
+    cli_contract(run)
+    eng.back_edge_hook = cli_faces.make_back_edge(run, {"check"})
+    run.verify("cli.main", extra_post=cli_faces.check_paths)
+    eng.back_edge_hook = None
+    run.replayers.append(make_cli_replayer(run))
+    d = run_child(run.repo.root, "cli_diff.py", [str(run.seed)])
+    if "error" in d:
+        raise RuntimeError(f"replay/cli_diff.py failed: {d}")
+    viol = []
+    for f in d.get("failures", []):
+        if f.get("face") == "check":
+            f = dict(f)
+            f["name"] = "cli_diff:check:" + f.get("what", "")[:40]
+            if not viol:
+                viol.append(f)
+    run.bounded_parts.append({"name": "cli_diff", "label": "bounded",
+                              "what": "replay/cli_diff.py (check face): stacks of 1..4 pickles from benign and flagged families through --check-safety "
+                                      "with / without --print-results: exit status and the JSON report's per-pickle severities against the library's",
+                              "bound": {k: v for k, v in d.items() if k != "failures"}, "violations": viol})
     # (4) lemma: for Severity operands each operator contract *is* the comparison of documented ranks (all 36 pairs x operators:
     #     symbolic over the closed enum, exhaustive because the domain is finite), and != is the negation of ==
     for op, rel in OPS.items():
